@@ -3,6 +3,6 @@ EXTENDS Ffi, Json
 \* at the end of a behaviour the harness releases everything still owned (Quiesce), in id order
 Emit == ncalls = MaxCalls => PrintT(<<"REPLAY", ToJson([calls |-> hist, left |-> {[id |-> o.id, ty |-> o.ty] : o \in live}])>>)
 \* focused runs: one action carrying filters, one filter object
-OneFilter == /\ \A o \in Of("action") : o.k = "filters"
+OneFilter == /\ \A o \in Of("action") : o.k \in {"filters", "html_only"}
              /\ Cardinality(Of("action")) <= 1 /\ Cardinality(Of("filter")) <= 1
 =============================================================================
